@@ -1441,6 +1441,8 @@ class Interp:
                 return obj.shape
         if isinstance(obj, (int, z3.ArithRef, z3.BoolRef)) and name == "dtype":
             return Opaque("dtype")
+        if isinstance(obj, (int, z3.ArithRef, z3.BoolRef)) and name == "ndim":
+            return 0                    # a NumPy scalar / 0-d array (np.asanyarray of a scalar)
         if isinstance(obj, (int, z3.ArithRef)) and name == "astype":
             class _Id:
                 def sym_call(self_, ip, args, kwargs, lineno):
